@@ -49,6 +49,8 @@ def valid_configs():
             for sh in (None, True):
                 out.append(dict(kind='eph', version=version, key=key, single_hop=sh, auth=None))
     out.append(dict(kind='eph', version=2, key='rsa', single_hop=None, auth='basic'))
+    out.append(dict(kind='eph', version=3, key=None, single_hop=None, auth=None, local_port=9876))
+    out.append(dict(kind='fs', version=3, dir='explicit', auth=None, local_port=9876))
     for version in (None, 2, 3):
         for d in ('explicit', 'implicit'):
             out.append(dict(kind='fs', version=version, dir=d, auth=None))
@@ -73,16 +75,28 @@ def run_listen(cfg, via, cfg_mode, ch, public_port=80):
                 hsdir = os.path.join(workdir(), 'hs-explicit')
                 shutil.rmtree(hsdir, ignore_errors=True)
             # step 1: how the configuration is supplied
-            c_cfg = ch.choose(3, 'config')         # 0 available, 1 Deferred that fails, 2 wrong type
+            c_cfg = ch.choose(5, 'config')         # 0 available, 1 Deferred that fails, 2 wrong type, 3/4 config still bootstrapping (then fails / succeeds)
             config_d = None
+            late = None
+            if c_cfg in (3, 4):
+                # a second TorConfig on the same connection whose bootstrap has not finished when listen() is called
+                from txtorcon.torconfig import TorConfig
+                sim.hold_prefixes = ['GETINFO config/names']
+                late = TorConfig(impl.proto)
+                sim.pump()
+                config_arg = late
             if c_cfg == 2:
                 config_arg = object()
+            elif c_cfg in (3, 4):
+                pass
             elif cfg_mode == 'deferred' or c_cfg == 1:
                 config_d = defer.Deferred()
                 config_arg = config_d
             else:
                 config_arg = impl.cfg
             kw = dict(version=cfg['version'])
+            if cfg.get('local_port'):
+                kw['local_port'] = cfg['local_port']
             if cfg['kind'] == 'eph':
                 if cfg['key'] == 'blob':
                     kw['private_key'] = 'ED25519-V3:SOMEKEYBLOB==' if cfg['version'] == 3 else 'RSA1024:SOMEKEYBLOB=='
@@ -100,7 +114,7 @@ def run_listen(cfg, via, cfg_mode, ch, public_port=80):
                     kw['ephemeral'] = False
             base = len(sim.commands)
             try:
-                if via == 'ctor' or config_arg is not impl.cfg:
+                if via == 'ctor' or config_arg is not impl.cfg or cfg.get('local_port'):
                     ep = TCPHiddenServiceEndpoint(w.reactor, config_arg, public_port, **kw)
                 else:
                     from txtorcon.controller import Tor
@@ -133,9 +147,16 @@ def run_listen(cfg, via, cfg_mode, ch, public_port=80):
             fac = Factory()
             fac.protocol = Protocol
             cmd = 'ADD_ONION' if cfg['kind'] == 'eph' else 'SETCONF'
-            sim.hold_prefixes = [cmd]
+            sim.hold_prefixes = [cmd] if late is None else ['GETINFO config/names']
             rec = DRec(ep.listen(fac))
             injected = None
+            if late is not None:
+                if c_cfg == 3:
+                    injected = 'config-bootstrap-failed'
+                    sim.override('GETINFO config/names', (551, [('line', 'injected: internal error')]))
+                sim.hold_prefixes = [cmd]
+                sim.pump()
+                the_cfg = late
             if config_d is not None:
                 if c_cfg == 1:
                     injected = RuntimeError('injected: no config for you')
@@ -185,7 +206,7 @@ def run_listen(cfg, via, cfg_mode, ch, public_port=80):
             # ---------------- oracle at quiescence
             cmds = sim.commands[base:]
             feat = '%s%s' % (cfg['kind'], '/auth' if cfg.get('auth') else '')
-            ok_path = (c_cfg, c_bind, c_cmd, c_up) == (0, 0, 0, 0)
+            ok_path = (c_cfg in (0, 4), c_bind, c_cmd, c_up) == (True, 0, 0, 0)
             ports = w.reactor.ports
             if len(rec.fires) != 1:
                 viol.append(('listen-fired-%d-times' % len(rec.fires), feat + ('/ok-path' if ok_path else '/fault-%s' % (injected if isinstance(injected, str) else type(injected).__name__)),
@@ -237,6 +258,8 @@ def run_listen(cfg, via, cfg_mode, ch, public_port=80):
                     if isinstance(injected, Exception) and not isinstance(injected, ValueError):
                         if e is not injected and str(injected) not in str(e):
                             viol.append(('failure-not-the-injected-error', type(injected).__name__, 'listen() failed with %r, injected %r' % (e, injected)))
+                    elif injected == 'config-bootstrap-failed' and 'injected' not in str(e):
+                        viol.append(('failure-not-the-injected-error', 'config-bootstrap', 'listen() failed with %r' % (e,)))
                     elif injected == 'rejected' and 'Tor says no' not in str(e):
                         viol.append(('failure-not-the-injected-error', 'rejected', 'listen() failed with %r' % (e,)))
                 open_ports = w.reactor.open_ports()
@@ -267,6 +290,8 @@ def invalid_cases():
         return lambda r, c: TCPHiddenServiceEndpoint(r, c, 80, **kw)
     out.append(('ephemeral+stealth', ctor(ephemeral=True, auth=AuthStealth(['a']))))
     out.append(('default-ephemeral+stealth', ctor(auth=AuthStealth(['a']))))
+    out.append(('ephemeral+stealth_auth-kwarg', ctor(ephemeral=True, stealth_auth=['a'])))
+    out.append(('default-ephemeral+stealth_auth-kwarg', ctor(stealth_auth=['a', 'b'])))
     out.append(('ephemeral+dir', ctor(ephemeral=True, hidden_service_dir='/tmp/x')))
     out.append(('filesystem+key', ctor(hidden_service_dir='/tmp/x', private_key='RSA1024:x')))
     out.append(('filesystem(explicit)+key', ctor(ephemeral=False, private_key='RSA1024:x')))
